@@ -152,7 +152,12 @@ func (s *socket) Construct(id string, server BaseServer, transport transports.Tr
 
 // Called upon transport considered open.
 func (s *socket) onOpen() {
-	s.SetReadyState("open")
+	// only an opening session opens: the transport may already have failed (and closed
+	// the session) between setTransport and this point, and a closed session stays closed
+	if !s.readyState.CompareAndSwap("opening", "open") {
+		return
+	}
+	socket_log.Debug("readyState updated from %s to %s", "opening", "open")
 
 	// sends an `open` packet
 	s.Transport().SetSid(s.id)
